@@ -7,14 +7,21 @@ fn is_ident_char(c: char) -> bool {
     c.is_ascii_alphanumeric() || c == '_'
 }
 
-/// Split into tokens: identifiers/numbers, single punctuation chars, string literals kept whole.
+/// Split into tokens: identifiers/numbers, single punctuation chars, string literals kept whole,
+/// one `\n` token per run of line breaks.
 pub fn tokens(s: &str) -> Vec<&str> {
     let mut out = vec![];
     let b = s.as_bytes();
     let mut i = 0;
     while i < b.len() {
         let c = b[i] as char;
-        if c.is_whitespace() {
+        if c == '\n' {
+            // line structure is part of the text (ASM ops are separated by nothing else)
+            if out.last() != Some(&"\n") {
+                out.push("\n");
+            }
+            i += 1;
+        } else if c.is_whitespace() {
             i += 1;
         } else if c == '"' {
             let st = i;
@@ -78,14 +85,16 @@ pub fn equal_up_to(a: &str, b: &str, ignore: &[&str]) -> Result<(), String> {
             if f != y || g != x {
                 return Err(format!(
                     "value renaming is not a bijection at token {i}: `{x}` ↔ `{y}` (context: …{}…)",
-                    ta[i.saturating_sub(6)..(i + 4).min(ta.len())].join(" ")
+                    ta[i.saturating_sub(6)..(i + 4).min(ta.len())].join(" ").replace('\n', "⏎")
                 ));
             }
         } else if x != y {
             return Err(format!(
-                "token {i} differs: `{x}` vs `{y}` (context: …{}… vs …{}…)",
-                ta[i.saturating_sub(8)..(i + 5).min(ta.len())].join(" "),
-                tb[i.saturating_sub(8)..(i + 5).min(tb.len())].join(" ")
+                "token {i} differs: `{}` vs `{}` (context: …{}… vs …{}…)",
+                x.replace('\n', "⏎"),
+                y.replace('\n', "⏎"),
+                ta[i.saturating_sub(8)..(i + 5).min(ta.len())].join(" ").replace('\n', "⏎"),
+                tb[i.saturating_sub(8)..(i + 5).min(tb.len())].join(" ").replace('\n', "⏎")
             ));
         }
     }
